@@ -199,7 +199,7 @@ def _solver_for(init):
     site=ES + "initialization",
     bound="every emission assignment in {0..n_e-1}^n_p x measurement assignment in {0..n_p-1}^n_e for (n_e,n_p) <= (2,3) "
     "and (3,2), plus get_emission_assignment/get_measurement_assignment outputs for (n_e,n_p) <= (4,6) x 20 seeds",
-    exhaustive=True,
+    exhaustive=False,  # exhaustive part + seeded part, see bound
     clause="initial population circuits: emission CNOT first on every photon, measure-and-reset placed",
 )
 def init_case(inp):
@@ -505,7 +505,7 @@ def hybrid_case(inp):
     "time_reversed.output",
     site="graphiq.solvers.time_reversed_solver:TimeReversedSolver.solve",
     bound="all labelled graphs without isolated vertex n<=4 (thorough n<=5 and 1500 seeded graphs on 6..7 vertices), graph input",
-    exhaustive=True,
+    exhaustive=False,  # exhaustive part + seeded part, see bound
     clause="every circuit produced by the deterministic solver",
 )
 def trs_case(inp):
